@@ -434,7 +434,9 @@ def gen_mnt_name(rng, kind):
     r = rng.random()
     if kind == "dev":
         base = rng.choice([b"/dev/sda1", b"none", b"/dev/root", b"rootfs", b"tmpfs", b"/dev/mapper/vg-lv", b"//host/share name", b"server:/export",
-                           b"/dev/disk/by-label/My\\Disk", b"", b"/dev/\xff\xfe"])
+                           b"/dev/disk/by-label/My\\Disk", b"", b"/dev/\xff\xfe",
+                           # names holding what *looks* like an escape once the real escapes are decoded
+                           b"\\\\nas\\043data", b"/dev/x\\040y", b"label\\134z", b"//nas/share#1"])
     elif kind == "dir":
         base = rng.choice([b"/", b"/mnt/usb stick", b"/mnt/tab\there", b"/mnt/new\nline", b"/mnt/back\\slash", b"/mnt/\xc3\xa9", b"/mnt/\xff", b"/a" * 50])
     elif kind == "type":
